@@ -31,7 +31,9 @@ def keep(r):
         return name.startswith("refactor-")
     if sel == "round2":
         return "-r2m" in name
-    return not name.startswith("refactor-") and "-r2m" not in name
+    if sel == "round3":
+        return "-r3m" in name
+    return not name.startswith("refactor-") and "-r2m" not in name and "-r3m" not in name
 if sel == "refactor":
     print("| refactoring | change (behaviour preserving; the suite passes) | checks that raise an alarm |")
 else:
